@@ -187,6 +187,8 @@ static ZoneSpec gen_zone(Rng* r, int idx, bool allow_bad, bool allow_literal) {
       int ss = static_cast<int>(r->pick(std::vector<int>{0, 0, 1, 37, 59, 60, 60, 99}));
       snprintf(b, sizeof b, "Fixed/UTC%c%02d:%02d:%02d", r->chance(0.5) ? '+' : '-', hh, mm, ss);
       z.key = b;
+      // ... or one character off: wrong sign, wrong separator, a non-digit in either position of a field
+      if (r->chance(0.15)) z.key[static_cast<size_t>(r->range(9, 17))] = r->pick(std::vector<char>{'*', ' ', '-', '+', ':', 'x', '/', '0', '9', '.'});
     }
   } else {
     z.base = "shipped:" + r->pick(popular());
